@@ -167,14 +167,15 @@ def viPrefix : M Int := do
       | 0, n, c => do viBack c; pure n
       | f + 1, n, c => if 48 ≤ c && c ≤ 57 then do
           let c' ← viRead
-          digits f (n * 10 + (c - 48)) c'
+          digits f (if n < 100000000 then n * 10 + (c - 48) else n) c'          -- further digits would overflow
         else do viBack c; pure n
     digits 64 0 c
   else
     viBack c
     pure 0
 
-def cntOf (s : VS) : Int := (if s.arg1 != 0 then s.arg1 else 1) * (if s.arg2 != 0 then s.arg2 else 1)
+/-- `vi_cnt()`: the product of the two counts, saturated -/
+def cntOf (s : VS) : Int := min ((if s.arg1 != 0 then s.arg1 else 1) * (if s.arg2 != 0 then s.arg2 else 1)) 999999999
 
 /-! ### reading one character and a prompt line (the text side of led.c) -/
 /-- byte offset of the last character of `s` (`led_lastchar`) -/
